@@ -29,6 +29,8 @@ def events_of(s):
 
 
 def run(res, f, tier):
+    global UNROLL
+    UNROLL = 3 if tier == "thorough" else 2
     ev_value = find(f, "evaluate_value", "ruleset::RuleSet")
     ev_fn = find(f, "evaluate", "ruleset::RuleSet")
     eval_rule = [d for d, b in f.bodies.items() if b["name"] == "eval_rule"]
